@@ -32,9 +32,22 @@ def as_const(t):
     if z3.is_false(t): return False
     return None
 
+def fp_const(t):
+    """python float if t is a Float64 numeral else None"""
+    t=simp(t)
+    if not z3.is_fp_value(t): return None
+    import struct
+    bv=z3.simplify(z3.fpToIEEEBV(t))
+    if not z3.is_bv_value(bv): return None
+    return struct.unpack("<d", struct.pack("<Q", bv.as_long()))[0]
+
 class Val:
-    __slots__=("ty","t")
-    def __init__(self, ty, t): self.ty=unlit(ty); self.t=t
+    """typed value.  For float64 values that are known to equal an exact (small) integer, `iv` carries that integer as
+    a signed 64-bit term with |iv| < 2^40: int->float casts of <=32-bit ints, and sums/differences of such values.
+    This lets comparisons between them be decided in bit-vector arithmetic instead of bit-blasted IEEE circuits
+    (sound: those conversions and +/- are exact in float64)."""
+    __slots__=("ty","t","iv","ivb")
+    def __init__(self, ty, t, iv=None, ivb=0): self.ty=unlit(ty); self.t=t; self.iv=iv; self.ivb=ivb
     def __repr__(self): return f"Val({self.ty},{self.t})"
 
 def mk_int(ty, v):
@@ -64,7 +77,12 @@ def cast(v, toty, ex=None):
     if is_bool(fr) and is_bool(toty): return v
     if is_int(fr) and is_float(toty):
         if toty.bitwidth != 64: raise Unsupported("float32")
+        if fr.bitwidth<=32:
+            iv=simp((z3.SignExt if fr.signed else z3.ZeroExt)(64-fr.bitwidth, v.t))
+            return Val(toty, simp(z3.fpSignedToFP(RM, iv, FPS)), iv, fr.bitwidth+1)
         if fr.signed: return Val(toty, simp(z3.fpSignedToFP(RM, v.t, FPS)))
+        c=as_const(v.t)
+        if c is not None and c < (1<<40): return Val(toty, simp(z3.fpUnsignedToFP(RM, v.t, FPS)), z3.BitVecVal(c,64), 41)
         return Val(toty, simp(z3.fpUnsignedToFP(RM, v.t, FPS)))
     if is_float(fr) and is_int(toty):
         # fptoui/fptosi: undefined if out of range -> record obligation
@@ -107,21 +125,18 @@ def push_trunc(t, w):
     return z3.Extract(w-1,0,t)
 
 class HashToken(Val):
-    """result of a stubbed hash call: only `token % W` is allowed; yields a fresh column < W (memoised per (key,seed,W))"""
-    def __init__(self, ty, key, seed, table):
-        Val.__init__(self, ty, None); self.key=key; self.seed=seed; self.table=table
+    """result of a stubbed hash call: only `token % W` is allowed; yields the column term supplied by `colfn(seed, W)`
+    (memoised by the key book, so equal key+seed give equal columns)"""
+    def __init__(self, ty, key, seed, colfn):
+        Val.__init__(self, ty, None); self.key=key; self.seed=seed; self.colfn=colfn
     def mod(self, ex, state, w, rt):
         wc=as_const(w.t)
         if wc is None: raise Unsupported("symbolic width")
         sc=as_const(self.seed.t)
-        k=(self.key, sc if sc is not None else self.seed.t.get_id(), wc)
-        if k not in self.table:
-            bits=max(1,(wc-1).bit_length())
-            v=z3.BitVec(f"col_k{self.key}_s{sc}_w{wc}", bits)
-            self.table[k]=(v, z3.ULT(v, z3.BitVecVal(wc,bits)) if wc < (1<<bits) else z3.BoolVal(True))
-        v,c=self.table[k]
-        if not any(c.eq(p) for p in state.pc): state.pc.append(c)
-        return Val(rt, z3.ZeroExt(rt.bitwidth-v.size(), v))
+        if sc is None: raise Unsupported("symbolic hash seed")
+        v,c=self.colfn(sc, wc)
+        if c is not None and not any(c.eq(p) for p in state.pc): state.pc.append(c)
+        return Val(rt, z3.ZeroExt(rt.bitwidth-v.size(), v) if v.size()<rt.bitwidth else v)
 
 class Store:
     """flat cell storage for arrays; copy-on-write by state"""
@@ -226,6 +241,11 @@ def merge_vals(guards, vals):
         t=vals[-1].t
         for g,v in reversed(list(zip(guards[:-1],vals[:-1]))):
             t = v.t if v.t is t else z3.If(g, v.t, t)
+        if all(v.iv is not None for v in vals):
+            iv=vals[-1].iv
+            for g,v in reversed(list(zip(guards[:-1],vals[:-1]))):
+                iv = v.iv if v.iv is iv else z3.If(g, v.iv, iv)
+            return Val(v0.ty, t, iv, max(v.ivb for v in vals))
         return Val(v0.ty, t)
     if isinstance(v0, tuple):
         return tuple(merge_vals(guards,[v[i] for v in vals]) for i in range(len(v0)))
@@ -420,6 +440,8 @@ class Executor:
             if t is None or not is_int(t): t=types.int64
             return mk_int(t, value)
         if isinstance(value, float):
+            if value==int(value) and abs(value)<(1<<40) and not (value==0 and str(value).startswith("-")):
+                return Val(types.float64, z3.FPVal(value, FPS), z3.BitVecVal(int(value),64), 41)
             return Val(types.float64, z3.FPVal(value, FPS))
         return value
 
@@ -523,7 +545,12 @@ class Executor:
         cmpops={operator.lt,operator.le,operator.gt,operator.ge,operator.eq,operator.ne}
         if fn in cmpops:
             if is_float(ta) or is_float(tb):
-                fa=cast(a,types.float64,self).t; fb=cast(b,types.float64,self).t
+                A=cast(a,types.float64,self); B=cast(b,types.float64,self)
+                if A.iv is not None and B.iv is not None:
+                    t={operator.lt:lambda x,y:x<y,operator.le:lambda x,y:x<=y,operator.gt:lambda x,y:x>y,operator.ge:lambda x,y:x>=y,
+                       operator.eq:lambda x,y:x==y,operator.ne:lambda x,y:x!=y}[fn](A.iv,B.iv)
+                    return Val(types.boolean, simp(t))
+                fa=A.t; fb=B.t
                 t={operator.lt:z3.fpLT,operator.le:z3.fpLEQ,operator.gt:z3.fpGT,operator.ge:z3.fpGEQ,operator.eq:z3.fpEQ,operator.ne:z3.fpNEQ}[fn](fa,fb)
                 return Val(types.boolean, simp(t))
             if is_bool(ta) and is_bool(tb):
@@ -537,7 +564,11 @@ class Executor:
                operator.eq:lambda x,y:x==y,operator.ne:lambda x,y:x!=y}[fn](ea,eb)
             return Val(types.boolean, simp(t))
         if is_float(rt):
-            fa=cast(a,types.float64,self).t; fb=cast(b,types.float64,self).t
+            A=cast(a,types.float64,self); B=cast(b,types.float64,self)
+            if A.iv is not None and B.iv is not None and fn in (operator.add, operator.sub) and max(A.ivb,B.ivb)<45:
+                iv=simp(A.iv+B.iv if fn is operator.add else A.iv-B.iv)
+                return Val(rt, simp(z3.fpSignedToFP(RM, iv, FPS)), iv, max(A.ivb,B.ivb)+1)
+            fa=A.t; fb=B.t
             if fn is operator.add: t=z3.fpAdd(RM,fa,fb)
             elif fn is operator.sub: t=z3.fpSub(RM,fa,fb)
             elif fn is operator.mul: t=z3.fpMul(RM,fa,fb)
@@ -604,7 +635,15 @@ class Executor:
         return Executor.mulsym(w)(x,y)
     POW=z3.Function("pow", FPS, FPS, FPS)
     LOG=z3.Function("log", FPS, FPS)
-    def uf_pow(self, a, b): return Executor.POW(a,b)
+    def uf_pow(self, a, b):
+        """float64 ** float64: uninterpreted, except that two numerals are evaluated with the host's libm pow
+        (assumption: Numba's llvm.pow agrees with numpy's pow on this host; replays re-check on the real code)"""
+        fa=fp_const(a); fb=fp_const(b)
+        if fa is not None and fb is not None:
+            import numpy as _np
+            with _np.errstate(all="ignore"):
+                return z3.FPVal(float(_np.float64(fa)**_np.float64(fb)), FPS)
+        return Executor.POW(a,b)
 
     def array_binop(self, fn, a, b, sig, state):
         if not (isinstance(a,Arr) and isinstance(b,Arr)): raise Unsupported("array-scalar binop")
